@@ -44,6 +44,7 @@ type Cfg struct {
 	EmptyStart  bool     `json:"empty_start"`
 	Sweeper     bool     `json:"sweeper"`
 	Cleaner     bool     `json:"cleaner"`
+	ListFaults  bool     `json:"list_faults"` // the initial listing may fail
 	TwoRemotes  bool     `json:"two_remotes"` // two remote instances with disjoint keys; both snapshots may wait in the receiver at once
 }
 
@@ -91,6 +92,10 @@ type World struct {
 	commitAt  []string
 	storesAfterQuiet int
 	lastSeq  int
+	cancelStep int
+	listFail int
+	cleanerFires int
+	prevJ    map[string]world.Ver
 	pending  int // decoded snapshots handed to the receiver and not yet taken by the loop
 	pendingMax int
 	remoteQ2 []byte
@@ -144,6 +149,9 @@ func sleepKey(d time.Duration) string {
 		return "retry"
 	case time.Second:
 		return "initlist"
+	}
+	if d >= 5*time.Minute && d <= 9*time.Minute {
+		return "cleaner" // SleepContextPerturb(7 min): 80%..120%
 	}
 	return "other"
 }
@@ -402,6 +410,10 @@ func Run(cfg Cfg, ctx *explore.Ctx) Result {
 		c.OnlyOnce = cfg.OnlyOnce
 		c.StorageRetryCount = 3
 	}}
+	if cfg.Cleaner {
+		// the cleaner takes "now" from the real clock: all scripted snapshots (logical clock, 2017) are older than any interval
+		opt.Cleanup = &config.Cleanup{Enabled: true, Interval: 7 * time.Minute, MustKeepInterval: 0, RemoveOldInstancesInterval: time.Second}
+	}
 	w.A = inst.New("a", w.B, opt)
 	defer w.A.Destroy()
 	// steady state: initial content written and mirrored by a previous complete sync step
@@ -420,6 +432,8 @@ func Run(cfg Cfg, ctx *explore.Ctx) Result {
 	}
 	w.B.Put(n1, d1)
 	w.remote2, w.remote2N = d2, n2
+	w.monitor("setup")
+	w.B.AfterMutate = func(op, name string) { w.monitor(op + " " + name) }
 	if cfg.TwoRemotes {
 		w.B.Put(qn1, qd1)
 		w.remoteQ2, w.remoteQ2N = qd2, qn2
@@ -436,7 +450,7 @@ func Run(cfg Cfg, ctx *explore.Ctx) Result {
 	}
 	w.B.Hook = func(op, name string) error {
 		answers := []string{"ok"}
-		if (op == "store" && cfg.StoreFaults > 0) || (op == "load" && cfg.LoadFaults) {
+		if (op == "store" && cfg.StoreFaults > 0) || (op == "load" && cfg.LoadFaults) || (op == "list" && cfg.ListFaults) {
 			answers = []string{"ok", "fail"}
 		}
 		a := s.Park("st."+op, name, answers)
@@ -445,6 +459,9 @@ func Run(cfg Cfg, ctx *explore.Ctx) Result {
 		if a == 1 {
 			if op == "store" {
 				w.storeFail++
+			}
+			if op == "list" {
+				w.listFail++
 			}
 			return errors.New("injected storage failure")
 		}
@@ -497,6 +514,12 @@ func Run(cfg Cfg, ctx *explore.Ctx) Result {
 		}
 		if w.idle >= cfg.IdleIters && !w.cancelled {
 			outcome = "idle"
+			break
+		}
+		if w.cancelled {
+			// After cancellation a select may have two ready cases (ctx.Done and a signal): the run is no longer
+			// deterministic. Switch to drain mode right away and judge only whether Sync returns.
+			outcome = "cancelled"
 			break
 		}
 		select {
@@ -564,24 +587,67 @@ func Run(cfg Cfg, ctx *explore.Ctx) Result {
 	s.Drain()
 	select {
 	case <-w.syncDone:
-	case <-time.After(20 * time.Second):
-		w.viol("c17:sync-does-not-return-after-cancel", "Sync did not return within 20 s after its context was cancelled")
+	case <-time.After(5 * time.Second):
+		w.viol("c17:sync-does-not-return-after-cancel@"+w.cancelAt(), fmt.Sprintf("Sync did not return within 5 s (and %d scheduler steps) after its context was cancelled at %s", s.Steps-w.cancelStep, w.cancelAt()))
 	}
 	verifhook.SetNow(nil)
 	// give leftover goroutines of this execution a moment to finish before the environment is destroyed
-	for i := 0; i < 200; i++ {
-		busy := false
-		for _, g := range s.Snapshot() {
-			if g.Managed && strings.Contains(g.Stack, "lmdb-go") {
-				busy = true
+	s.WaitGone(5 * time.Second)
+	return Result{Outcome: outcome, Viols: w.Viols, Steps: s.Steps, Stores: w.stores, Commits: w.commits, Loads: w.loads, Trace: ctx.TraceLabels()}
+}
+
+// monitor (C05): the join over the newest snapshot of every instance never loses a key or moves it back.
+func (w *World) monitor(what string) {
+	j := map[string]world.Ver{}
+	for _, in := range []string{"a", "r", "q"} {
+		n := ""
+		for _, name := range w.B.Names() {
+			if strings.HasPrefix(name, inst.DBName+"__"+in+"__") {
+				n = name
 			}
 		}
-		if !busy {
-			break
+		if n == "" {
+			continue
 		}
-		time.Sleep(time.Millisecond)
+		data, _ := w.B.Get(n)
+		lc, _, err := fleet.SnapLC(data)
+		if err != nil {
+			continue
+		}
+		for d, m := range lc {
+			for k, v := range m {
+				if cur, ok := j[d+"/"+k]; !ok || v.TS > cur.TS {
+					j[d+"/"+k] = v
+				}
+			}
+		}
 	}
-	return Result{Outcome: outcome, Viols: w.Viols, Steps: s.Steps, Stores: w.stores, Commits: w.commits, Loads: w.loads, Trace: ctx.TraceLabels()}
+	for k, old := range w.prevJ {
+		now, ok := j[k]
+		if !ok {
+			w.viol("c05:published-data-lost", fmt.Sprintf("after %s the newest snapshots in the bucket no longer contain key %s (was %v); bucket %v", what, k, old, w.B.Names()))
+		} else if now.TS < old.TS {
+			w.viol("c05:published-data-moved-back", fmt.Sprintf("after %s key %s went back from %v to %v", what, k, old, now))
+		}
+	}
+	w.prevJ = j
+}
+
+func (w *World) cancelAt() string {
+	for _, l := range w.S.Log {
+		if strings.HasPrefix(l, "cancel@") {
+			return strings.TrimPrefix(l, "cancel@")
+		}
+	}
+	return "end-of-execution"
+}
+
+func (w *World) cancelChoice(s *sched.Sched, at string) sched.Choice {
+	return sched.Choice{Label: "cancel@" + at, Cost: 1, Act: &sched.Action{Do: func() {
+		w.cancelled = true
+		w.cancelStep = s.Steps
+		w.cancel()
+	}}}
 }
 
 // policy: background goroutines with work in progress run first (deterministic
@@ -589,7 +655,7 @@ func Run(cfg Cfg, ctx *explore.Ctx) Result {
 func (w *World) policy(appPoints map[string]bool) sched.Policy {
 	cfg := w.Cfg
 	return func(s *sched.Sched, parked []*sched.P) []sched.Choice {
-		var loop, recvSleep, straddle *sched.P
+		var loop, recvSleep, straddle, cleanerSleep *sched.P
 		var background []*sched.P
 		for _, p := range parked {
 			switch {
@@ -599,6 +665,8 @@ func (w *World) policy(appPoints map[string]bool) sched.Policy {
 				straddle = p
 			case p.Point == "sleep.storagepoll":
 				recvSleep = p
+			case p.Point == "sleep.cleaner":
+				cleanerSleep = p
 			case strings.HasPrefix(p.Point, "sleep."):
 				// retry sleeps of downloaders: fire them as background work
 				background = append(background, p)
@@ -675,20 +743,29 @@ func (w *World) policy(appPoints map[string]bool) sched.Policy {
 				}}})
 			}
 			if cfg.Cancel && !w.cancelled {
-				out = append(out, sched.Choice{Label: "cancel", Cost: 1, Act: &sched.Action{Do: func() {
-					w.cancelled = true
-					w.cancel()
-					// wake sleepers with "cancel"
-					for _, p := range s.Parked() {
-						if len(p.Answers) == 2 && p.Answers[1] == "cancel" {
-							s.Release(p, 1)
-						}
-					}
-				}}})
+				out = append(out, w.cancelChoice(s, "sleep.lmdbpoll"))
+			}
+			if cleanerSleep != nil && w.cleanerFires < 3 {
+				cs := cleanerSleep
+				out = append(out, sched.Choice{Label: "cleaner-timer-fires", Cost: 1, Act: &sched.Action{Do: func() { w.cleanerFires++; w.idle = 0; s.Release(cs, 0) }}})
 			}
 			return out
 		case strings.HasPrefix(loop.Point, "sleep."):
-			return one(loop, 0)
+			out := one(loop, 0)
+			if cfg.Cancel && !w.cancelled {
+				out = append(out, w.cancelChoice(s, loop.Point))
+			}
+			if cleanerSleep != nil && w.cleanerFires < 3 {
+				cs := cleanerSleep
+				out = append(out, sched.Choice{Label: "cleaner-timer-fires", Cost: 1, Act: &sched.Action{Do: func() { w.cleanerFires++; s.Release(cs, 0) }}})
+			}
+			return out
+		case loop.Point == "st.list" && len(loop.Answers) == 2:
+			out := one(loop, 0)
+			if w.listFail < 2 {
+				out = append(out, sched.Choice{Label: loop.Key() + "=fail", Cost: 1, P: loop, Answer: 1, Act: nil})
+			}
+			return out
 		case loop.Point == "st.store":
 			out := one(loop, 0)
 			if len(loop.Answers) == 2 && w.storeFail < cfg.StoreFaults {
@@ -716,6 +793,9 @@ func (w *World) policy(appPoints map[string]bool) sched.Policy {
 			w.visits[loop.Point]++
 		}
 		out := one(loop, 0)
+		if cfg.Cancel && !w.cancelled && arrived {
+			out = append(out, w.cancelChoice(s, loop.Point))
+		}
 		// hooks passed in every poll iteration are offered deviations only at their first MaxVisits visits
 		perIteration := loop.Point == "sync.loopTop" || loop.Point == "sync.beforeInfo" || loop.Point == "sync.afterSendCheck"
 		if appPoints[loop.Point] && straddle == nil && (cfg.MaxVisits == 0 || !perIteration || w.visits[loop.Point] <= cfg.MaxVisits) {
